@@ -31,6 +31,8 @@ pub fn stencil(ops: Ops, side: Option<SubSide>, env: &mut Uiua) -> UiuaResult {
     if f.sig.args() > 1 && side.is_none() {
         let mut xs = env.pop(1)?;
         xs.match_fill(env.ctx());
+        // The windows are not the rows that map keys belong to
+        xs.meta.take_map_keys();
         let n = f.sig.args();
         return if xs.row_count() < n
             && xs.fill(env).is_err()
